@@ -13,7 +13,7 @@ Require Import Grits.Base Grits.ModeDefs Grits.Modes Grits.STypes Grits.Forms Gr
                Grits.Runtime Grits.spec.RtTyping Grits.spec.Topo Grits.proofs.RtSubst Grits.proofs.RtEffect
                Grits.proofs.StepErrors Grits.proofs.RtSafety Grits.proofs.RtInit Grits.proofs.RtProgress
                Grits.proofs.RtTheorems Grits.proofs.RtStaticCheck Grits.proofs.RtTcSyn Grits.proofs.RtTcBisim
-               Grits.proofs.ParseSynOk.
+               Grits.proofs.ParseSynOk Grits.proofs.ParseRaw.
 
 (* ------------------------------------------------------------------ one statically typed program *)
 Section OneProgram.
@@ -150,22 +150,22 @@ Proof.
   exact (progress_sync_one _ p' (teq_rt_laws _) (tc_annotations_typed_rt p p' Ha PS RS Hf) Ht).
 Qed.
 
-(* ------------------------------------------------------------------ programs that come out of the parser: prog_syn_ok is a theorem
-   (proofs/ParseSynOk.v), one computable premise is left *)
+(* ------------------------------------------------------------------ programs that come out of the parser: prog_syn_ok and raw_ok
+   are theorems (proofs/ParseSynOk.v, proofs/ParseRaw.v) *)
 Theorem tc_annotations_typed_parsed txt p p' :
-  parse_string txt = POk p -> typecheck p = Accept p' -> in_fragment p' -> raw_ok p = true ->
+  parse_string txt = POk p -> typecheck p = Accept p' -> in_fragment p' ->
   static_typed (teq_rt (p_types p')) p'.
-Proof. intros Hp Ha Hf RS. exact (tc_annotations_typed_rt p p' Ha (parse_syn_ok _ _ Hp) RS Hf). Qed.
+Proof. intros Hp Ha Hf. exact (tc_annotations_typed_rt p p' Ha (parse_syn_ok _ _ Hp) (parse_raw_ok _ _ Hp) Hf). Qed.
 
 Theorem safety_parsed_partial txt p p' md :
-  parse_string txt = POk p -> typecheck p = Accept p' -> in_fragment p' -> raw_ok p = true ->
+  parse_string txt = POk p -> typecheck p = Accept p' -> in_fragment p' ->
   topo_runs p' -> is_np md = false ->
   forall fuel pick c who e,
     exec_run fuel pick md (p_types p') (p_funs p') (init_config p') <> RError c who e.
-Proof. intros Hp Ha Hf RS. exact (safety_tc_partial p p' md Ha Hf (parse_syn_ok _ _ Hp) RS). Qed.
+Proof. intros Hp Ha Hf. exact (safety_tc_partial p p' md Ha Hf (parse_syn_ok _ _ Hp) (parse_raw_ok _ _ Hp)). Qed.
 
 Theorem progress_run_parsed_partial txt p p' :
-  parse_string txt = POk p -> typecheck p = Accept p' -> in_fragment p' -> raw_ok p = true ->
+  parse_string txt = POk p -> typecheck p = Accept p' -> in_fragment p' ->
   topo_runs p' ->
   forall fuel pick c,
     exec_run fuel pick Async (p_types p') (p_funs p') (init_config p') = RQuiescent c ->
@@ -176,10 +176,10 @@ Theorem progress_run_parsed_partial txt p p' :
                       chans c !! k = Some st /\ ch_buf st = None /\ ch_closed st = false) /\
     (forall k st m, chans c !! k = Some st -> ch_buf st = Some m -> is_pos_rule (m_rule m) = true) /\
     ((forall k, alive c k -> exists o, obj_in c o /\ k ∈ refs o) -> procs c = ∅).
-Proof. intros Hp Ha Hf RS. exact (progress_run_tc_partial p p' Ha Hf (parse_syn_ok _ _ Hp) RS). Qed.
+Proof. intros Hp Ha Hf. exact (progress_run_tc_partial p p' Ha Hf (parse_syn_ok _ _ Hp) (parse_raw_ok _ _ Hp)). Qed.
 
 Theorem progress_sync_run_parsed_partial txt p p' :
-  parse_string txt = POk p -> typecheck p = Accept p' -> in_fragment p' -> raw_ok p = true ->
+  parse_string txt = POk p -> typecheck p = Accept p' -> in_fragment p' ->
   topo_runs p' ->
   forall fuel pick c,
     exec_run fuel pick Sync (p_types p') (p_funs p') (init_config p') = RQuiescent c ->
@@ -189,7 +189,7 @@ Theorem progress_sync_run_parsed_partial txt p p' :
           exists m, action_of Sync (p_types p') pr = ASend k m /\ is_pos_rule (m_rule m) = true)) /\
     ((forall k, (exists self pr, procs c !! self = Some pr /\ k ∈ cids_of (pr_provs pr)) ->
                 exists o, obj_in c o /\ k ∈ refs o) -> procs c = ∅).
-Proof. intros Hp Ha Hf RS. exact (progress_sync_run_tc_partial p p' Ha Hf (parse_syn_ok _ _ Hp) RS). Qed.
+Proof. intros Hp Ha Hf. exact (progress_sync_run_tc_partial p p' Ha Hf (parse_syn_ok _ _ Hp) (parse_raw_ok _ _ Hp)). Qed.
 
 (* ------------------------------------------------------------------ the two computable premises, as the check module evaluates them *)
 Inductive syn_verdict : Type :=
